@@ -158,10 +158,28 @@ def check(model, tier):
         params = f.params
         if "name" not in params or "name_prefix" not in params:
             raise AnalysisError(f"{f.key} lost its name/name_prefix parameters")
+
+        def name_ok(val: ast.expr | None, depth: int = 4) -> bool:
+            """The caller's `name`, or get_relation_name(name_prefix), or a choice between such values."""
+            if val is None or depth < 0:
+                return False
+            if isinstance(val, ast.Name):
+                if val.id == "name":
+                    return True
+                binds = [n.value for n in ast.walk(f.node) if isinstance(n, ast.Assign) and any(isinstance(t, ast.Name) and t.id == val.id for t in n.targets)]
+                return bool(binds) and all(name_ok(b, depth - 1) for b in binds)
+            if isinstance(val, ast.IfExp):
+                return name_ok(val.body, depth - 1) and name_ok(val.orelse, depth - 1)
+            if isinstance(val, ast.BoolOp) and isinstance(val.op, ast.Or):
+                return all(name_ok(x, depth - 1) for x in val.values)
+            if isinstance(val, ast.NamedExpr):
+                return name_ok(val.value, depth - 1)
+            return isinstance(val, ast.Call) and call_attr(val) == "get_relation_name" and bool(val.args) and src(val.args[0]) == "name_prefix"
+
         for node in ast.walk(f.node):
             if isinstance(node, ast.Assign) and any(isinstance(t, ast.Name) and t.id == "name" for t in node.targets):
                 val = node.value
-                ok = isinstance(val, ast.Call) and call_attr(val) == "get_relation_name" and val.args and src(val.args[0]) == "name_prefix"
+                ok = name_ok(val)
                 inst = f"{f.qualname}:name-default"
                 if ok:
                     run.ok("R19.2", inst, {"assign": src(node)})
@@ -172,7 +190,7 @@ def check(model, tier):
             if name.split(".")[-1] == "Materialization":
                 nm = kw(call, "name")
                 inst = f"{f.qualname}:Materialization(name=)"
-                if nm is not None and src(nm) == "name":
+                if name_ok(nm):
                     run.ok("R19.2", inst)
                 else:
                     run.fail("R19.2", inst, f"Materialization is constructed with name={src(nm)} instead of the resolved `name`", fi=f, node=call)
